@@ -261,7 +261,8 @@ def run(pid, tier):
         n = rng.randint(6, 30)
         styles = [[c for c in cons if rng.random() < 0.5] for _ in range(n)]
         avail = {c: sum(1 for s in styles if c in s) for c in cons}
-        nr = 1 if pid == "C07" else rng.randint(2, 6)
+        # (C07: mostly one draw; sometimes the same card objects are drawn from again, from scratch, with revised sizes)
+        nr = rng.choice([1, 1, 2, 3]) if pid == "C07" else rng.randint(2, 6)
         sizes = {c: 0 for c in cons}
         rounds = []
         for _ in range(nr):
